@@ -39,6 +39,8 @@ def with_sensors(d):
 def cases(tier, seed):
     defs = space.family_bind(tier, with_sensors=True)
     defs += [with_sensors(d) for d in space.family_ops("quick") if len(d["state"]) == 2][:: (1 if tier == "thorough" else 4)]
+    # symbols declared with sympy assumptions (different objects from plain Symbol(name)), all or only some of them
+    defs += [space.assumed(defs[13]), space.assumed(defs[25], ["x", "k"])]
     # filters whose sensors have the same shapes (m == n twice, m != n) alive together, updates alternated between them
     inter = [space.bind_def(2, 0, 1, order=0, sensors_shape=(2, 1)), space.bind_def(2, 1, 0, order=1, sensors_shape=(2,), tag="-twin"),
              space.bind_def(3, 1, 1, order=2, sensors_shape=(3, 2)), space.bind_def(3, 0, 0, order=3, sensors_shape=(1, 3))]
